@@ -71,6 +71,9 @@ def run(ctx):
         "the library acceptor's application loop in the driver mirrors storescp's (reply A-RELEASE-RP and stop, stop on "
         "A-ABORT / error); the real storescp loop is exercised through the binary",
         "the library peers are driven through the sync API and, with the same schedules, through the async API",
+        "against storescp some requestors are scripts that take the A-RELEASE-RP, keep the socket open and send a C-ECHO-RQ "
+        "or a complete C-STORE (named misuse actions of AssocImpl, requestor side only); the acceptor has no action that "
+        "writes P-DATA after its own A-RELEASE-RP, so any response is rejected",
         "a receive that returns only because of the driver's hang-guard read timeout is followed by dropping the "
         "association (DropAny in the model)",
     ]
@@ -133,6 +136,7 @@ def run(ctx):
     scp = vlib.build_tool("storescp")
     traces = []
     answered = 0
+    late = 0
     for nb in (False, True):
         t = ctx.path("scp_nb.ndjson" if nb else "scp.ndjson")
         a = ["scp", "--bin", scp, "--n", 40 if q else 400, "--out", t]
@@ -144,6 +148,7 @@ def run(ctx):
         ctx.cov["evaluations"] += rp["cases"]
         events += rp["events"]
         answered += rp["release_answered"]
+        late += rp["late_data_cases"]
         traces.append((t, rp["cases"]))
     allscp = ctx.path("scp_all.ndjson")
     with open(allscp, "w") as f:
@@ -153,6 +158,9 @@ def run(ctx):
     ctx.cov["traces_validated_against_impl"] += sum(k for _, k in traces) - bad
     if answered == 0:
         raise vlib.ToolError("vacuity: storescp never answered a release request in the recorded traces")
+    if late == 0:
+        raise vlib.ToolError("vacuity: no scripted requestor kept its connection open after the release reply")
+    ctx.extra_cov["storescp_data_after_release_cases"] = late
     ctx.extra_cov["trace_events_validated"] = events
     ctx.extra_cov["storescp_release_replies_seen"] = answered
     ctx.exhaustive = False
